@@ -51,6 +51,7 @@ void h_error_response4_(void) { size_t os = nondet_size(); __CPROVER_assume(os <
 ''', enforce=['handle_value_confirmation', 'error_response5_', 'error_response4_'], replace=['l2cap_cb_confirmation']),
 ]
 
+UNITS.append(_load('C10rq').UNIT)
 META = dict(
     level='proof',
     explanation="At most one indication outstanding: dequeue (general, single-entry and top-level wrapper, contracts in C12.py) hands out an "
@@ -60,6 +61,7 @@ META = dict(
                 "'Eventually transmitted' is covered by the one-step fairness clause of dequeue (nothing eligible before the returned entry "
                 "is skipped, cursor advances): a ranking argument, not a liveness proof.",
     assumptions=["liveness ('eventually') is not a contract; replaced by the one-step ranking lemma",
-                 "the path confirmation -> link layer callback -> indication_confirmed() (link_layer.hpp queue_lcap_notification) is read, not proved"],
+                 "the path confirmation -> link layer call back -> indication_confirmed(): handle_value_confirmation calls the call back with kind 'confirmation' (unit confirmation), "
+                 "queue_lcap_notification (real body, unit request of C10rq.py) answers that kind with indication_confirmed() and nothing else"],
     trusted_base=[],
 )
